@@ -833,7 +833,16 @@ def rdbg(orig, rule):
     return 'assert!(%s);' % m.group(1)
 
 
+def r61(orig, rule):
+    # E.map(|(A, B)| X)   (tail expression, E an Option of a pair)   ->   match E { Some((A, B)) => { let __r = Some(X); __r } None => { None } }      (definition of Option::map, result named)
+    s = norm(orig)
+    m = _m(r'(.+) \. map \( \| \( (%s) , (%s) \) \| (.+) \)' % (ID, ID), s)
+    e, a, b, x = m.groups()
+    return 'match %s { Some((%s, %s)) => { let __r = Some(%s); __r } None => { None } }' % (e, a, b, x)
+
+
 GENERATORS = {
+    'R61': r61,
     'RDBG': rdbg,
     'R60': r60,
     'R58': r58, 'R59': r59,
